@@ -312,4 +312,10 @@ Theorem oracle_facts o :
   (forall w r w', runF fmt o w = Val (r, w') -> exists o' r', run o' w = Val (r', w')).
 Proof. split; [exact (runF_covered o)|]. split; [exact (runF_extends o)|exact (runF_is_run o)]. Qed.
 
+Theorem H12_reachableF l : forall w w', H12 w -> run_opsF l w = Val w' -> H12 w'.
+Proof.
+  induction l as [|o l IH]; intros w w' I H; cbn [run_opsF] in H; [injection H as <-; exact I|].
+  destruct (runF fmt o w) as [[x w1]| |] eqn:E; try discriminate H. exact (IH _ _ (H12_stepF _ _ _ _ I E) H).
+Qed.
+
 End Hist.
